@@ -5068,6 +5068,10 @@ func (formalArgs createArgsUnmapped) exec(vm *vm) {
 		c = vm.args
 	}
 	for _, v := range vm.stash.values[:c] {
+		if v == nil {
+			// not yet copied to the stash (see enterFunc1): the argument is still on the stack
+			v = vm.stack[vm.sb+1+i]
+		}
 		args._put(unistring.String(strconv.Itoa(i)), v)
 		i++
 	}
